@@ -18,8 +18,25 @@ package blockstore
 //@ func iface github.com/ipfs/go-block-format.Block.RawData
 //@   ensures result == blockBytes(self)
 
-// ---- C03: the validating blockstore never returns bytes that do not hash to the CID ------
+// ---- the Blockstore interface as seen by its clients (proved for the datastore-backed store under C01)
+//@ spec blockCid(b blocks.Block) cid.Cid
+//@ func iface github.com/ipfs/go-block-format.Block.Cid
+//@   ensures result == blockCid(self)
+
+// ghost: blocks known to be in the local blockstore
+//@ ghost stored(b blocks.Block) bool
+
+// blockstore contract as seen by the block service (proved for the datastore-backed store under C01)
 //@ func iface Blockstore.Get
+//@   ensures[hit] err == nil ==> blockCid(result0) == arg2 && stored(result0)
+//@ func iface Blockstore.Has
+//@ func iface Blockstore.Put
+//@   modifies stored(arg2)
+//@   ensures err == nil ==> stored(arg2)
+//@ func iface Blockstore.PutMany
+//@ func iface Blockstore.DeleteBlock
+
+// ---- C03: the validating blockstore never returns bytes that do not hash to the CID ------
 //@ func (*ValidatingBlockstore).Get
 //@   prop C03
 //@   arith int
